@@ -115,6 +115,14 @@ func init() {
 			return x.str(f(x.mustConcreteStr(c.Args[0], "filepath."+name)))
 		})
 	}
+	RegisterIntrinsic("internal/bytealg.MakeNoZero", func(x *Exec, s *State, c *CallCtx) Value {
+		n := c.Args[0].(*Term)
+		v, ok := x.makeSlice(s, types.Typ[types.Byte], n, n)
+		if !ok {
+			return nil
+		}
+		return v
+	})
 	RegisterIntrinsic(VrfPkg+".SHA1", func(x *Exec, s *State, c *CallCtx) Value {
 		in := x.mustConcreteStr(x.bytesToStr(s, c.Args[0]), "SHA1 input")
 		sum := sha1.Sum([]byte(in))
